@@ -367,7 +367,7 @@ DEFAULT_PROFILE = {
     "p_big_capacity": 0.06,
 }
 
-_WIDTHS = [1, 2, 3, 7, 8, 9, 15, 16, 17, 24, 31, 32, 33, 48, 63, 64]
+_WIDTHS = [1, 2, 3, 7, 8, 9, 15, 16, 17, 24, 24, 31, 32, 33, 40, 48, 56, 63, 64]
 
 
 def _prim(rng, prof, for_union=False):
@@ -469,6 +469,10 @@ def _section(rng, prof, pool, kind_union, allow_empty):
     """One attribute section: returns (lines, max_bits before final padding)."""
     if allow_empty and rng.random() < prof["p_empty"] and not kind_union:
         return [], 0
+    if not kind_union and rng.random() < prof.get("p_padding_only", 0.05):
+        # a structure that is nothing but padding (placeholder): occupies bytes, carries no value
+        voids = [f"void{rng.choice([1, 3, 8, 16, 16, 24, 7, 64])}" for _ in range(rng.randint(1, 3))]
+        return voids, sum(int(v[4:]) for v in voids) + 8
     nf = rng.randint(2 if kind_union else 1, prof["max_fields"])
     prof = dict(prof, _illegal_now=rng.random() < prof["p_illegal"])
     budget = prof["max_type_bits"]
@@ -512,7 +516,7 @@ def _section(rng, prof, pool, kind_union, allow_empty):
             body[at:at] = trio
             total += 64 + 32 + ref["max"] + 16
         # (b) empty composites (empty sealed type / @extent 0) as first, middle or LAST field
-        empties = [r for r in pool if r["max"] <= 32]
+        empties = [r for r in pool if r["max"] <= 32 or r.get("padonly")]
         if empties and rng.random() < prof.get("p_pattern_empty", 0.25):
             for where in rng.sample(["first", "middle", "last", "last"], rng.randint(1, 2)):
                 ref = rng.choice(empties)
@@ -521,9 +525,14 @@ def _section(rng, prof, pool, kind_union, allow_empty):
                     body.insert(0, line)
                 elif where == "last":
                     body.append(line)
+                    if ref.get("padonly") and rng.random() < 0.7:     # something to decode behind the padding
+                        body.append(f"{rng.choice(['uint8', 'uint16', 'bool', 'uint5'])} {fname()}")
                 else:
                     body.insert(rng.randint(0, len(body)), line)
-                total += ref["max"] + 8
+                total += ref["max"] + 8 + 16
+                if ref.get("padonly") and rng.random() < 0.4:         # and as array elements
+                    body.insert(rng.randint(0, len(body)), f"{ref['text']}[{rng.choice(['2', '<=2', '<=3'])}] {fname()}")
+                    total += 3 * (ref["max"] + 8) + 8
         # conservative upper bound: every field padded to 8
         mx = total + 8
     if rng.random() < prof["p_constants"]:
@@ -625,7 +634,9 @@ def generate(rng, out_dir, n_types=30, root_name="vns", profile=None):
                 continue
             ref = f"{c.full_name}.{c.version.major}.{c.version.minor}"
             mx = c.extent + (32 if isinstance(c, pydsdl.DelimitedType) else 0)
-            pool.append({"text": ref, "max": mx})
+            inner = c.inner_type if isinstance(c, pydsdl.DelimitedType) else c
+            padonly = bool(inner.fields) and all(isinstance(f, pydsdl.PaddingField) for f in inner.fields)
+            pool.append({"text": ref, "max": mx, "padonly": padonly})
         pool.sort(key=lambda r: r["text"])
     comps = parse_current()
     return Namespace(root, comps, dropped, ["--allow-unregulated-fixed-port-id"])
